@@ -76,9 +76,10 @@ def unit_lex(text):
     import re
     kwset = unit_lex.kw
     out = []
-    for m in re.finditer(r"[A-Za-z_][A-Za-z0-9_]*|\s+|T#\d+ms|[0-9]+|:=|=>|\.\.|.", text, re.S):
+    for m in re.finditer(r"'[^']*'|\"[^\"]*\"|[A-Za-z_][A-Za-z0-9_]*|\s+|T#\d+ms|[0-9]+|:=|=>|\.\.|.", text, re.S):
         w = m.group(0)
-        if w.isspace(): out.append(('nl',) if '\n' in w else ('_',))
+        if w[0] in '\'"': out.append(('lit', w))      # a character string is one lexeme; its content is never respelled
+        elif w.isspace(): out.append(('nl',) if '\n' in w else ('_',))
         elif re.match(r'[A-Za-z_]', w):
             if w.upper() in kwset: out.append(('kw', w))
             elif w in ('INTERVAL', 'PRIORITY'): out.append(('pk', w))
